@@ -597,4 +597,10 @@ def run(ctx, rep):
     g7(F, rep)
     g8(F, rep)
     g9(F, rep)
+    # G10: the gzip header skipper refuses one thing of its own — a compression method other than deflate; everything else it
+    # returns is an I/O error of the cursor.  A length limit on FNAME / FCOMMENT / FEXTRA is a member RFC 1952 allows, refused.
+    from .. import err as _err
+    gb = F.body(SD + "skip_gzip_header")
+    own = _err.error_constructions(F, gb)
+    rep.add("G10", "gzip-header-one-rejection", len(own) <= 1, "%s:%s" % (gb.file, gb.line), "errors constructed by skip_gzip_header itself: %s (the method byte test)" % own)
     scan.a4_g5_for(ctx, rep, ("G5",))
